@@ -210,6 +210,9 @@ def doForms (f : List String) : String :=
         (match f.toDeep I t with
           | .error e => "\tf2d=" ++ showFail e
           | .ok d => "\tf2d=" ++ evalDeep I d ++ "\tf2dvars=" ++ showStrs d.vars ++ "\tf2dtext=" ++ hex (d.unparse I t)) ++
+        (match (match Flat.parseWoCompile I t (lmOf lm) text with | .ok w => w.toDeep I t | .error e => .error e) with
+          | .error e => "\two2d=" ++ showFail e
+          | .ok d => "\two2d=" ++ evalDeep I d ++ "\two2dtext=" ++ hex (d.unparse I t)) ++
         (match runHistory I t hist.toList (.inl f) with
           | .error e => "\th=" ++ showFail e
           | .ok (.inl g) => "\th=" ++ evalSym g ++ "\thvars=" ++ showStrs g.vars ++ "\thtext=" ++ hex g.text ++
@@ -708,10 +711,11 @@ def doHist (f : List String) : String :=
   | [tb, lm, poolF, form, hist] =>
     let t := parseTable tb
     let I := symInterpT t
-    let flat := form == "F"
+    let flat := form == "F" || form == "W"
     let texts := (splitOn poolF ";").map unhex
     let parsed : List (Res PoolEx) := texts.map (fun tx =>
-      if flat then (match Flat.parse I t (lmOf lm) tx with | .ok e => .ok (.inl e) | .error e => .error e)
+      if form == "W" then (match Flat.parseWoCompile I t (lmOf lm) tx with | .ok e => .ok (.inl e) | .error e => .error e)
+      else if flat then (match Flat.parse I t (lmOf lm) tx with | .ok e => .ok (.inl e) | .error e => .error e)
       else (match Deep.parse I t (lmOf lm) tx with | .ok e => .ok (.inr e) | .error e => .error e))
     if parsed.any (fun r => !r.isOk) then "pool=E" else
     let pool0 : Array PoolEx := (parsed.filterMap (fun r => match r with | .ok e => some e | .error _ => none)).toArray
